@@ -245,6 +245,19 @@ fn c08_glue(file: &syn::File) -> Option<proc_macro2::TokenStream> {
             call_args.push(quote!(#name));
         }
     }
+    // owned strings and lists are forwarded with spare capacity (a guest rarely hands over a
+    // buffer whose capacity equals its length; what is handed to the host and what is freed
+    // afterwards must agree all the same)
+    let mut reserve = vec![];
+    for (fp, gp) in f.sig.inputs.iter().zip(g.sig.inputs.iter()) {
+        let (syn::FnArg::Typed(fp), syn::FnArg::Typed(gp)) = (fp, gp) else { continue };
+        let t = gp.ty.to_token_stream().to_string().replace(' ', "");
+        let by_value = !matches!(&*fp.ty, syn::Type::Reference(_));
+        if by_value && (t.ends_with("String") || t.ends_with("Vec<u8>") || t.ends_with("Vec<u32>") || t.ends_with("Vec<u64>")) {
+            let name = &gp.pat;
+            reserve.push(quote!(let mut #name = #name; #name.reserve(3 + #name.len() % 5);));
+        }
+    }
     let import_async = f.sig.asyncness.is_some();
     let export_async = g.sig.asyncness.is_some();
     let call = match (import_async, export_async) {
@@ -286,7 +299,7 @@ fn c08_glue(file: &syn::File) -> Option<proc_macro2::TokenStream> {
         pub struct VerifGuest;
         #[allow(unused_variables, clippy::all)]
         impl Guest for VerifGuest {
-            #gsig { #call }
+            #gsig { #(#reserve)* #call }
         }
         pub const VERIF_NARGS: usize = #nargs;
         pub unsafe fn verif_call_g(args: &[u64]) -> u64 { unsafe { #ret_conv } }
@@ -450,8 +463,8 @@ fn main() {
             cur
         }
         let mut glue = vec![];
-        for iface in ["exp2", "exp3"] {
-            let items = module_items(&file.items, &["exports", "verif", "c07", iface]);
+        for (iface, ns, pkg) in [("exp2", "verif", "c07"), ("exp3", "verif", "c07"), ("exp4", "other", "pkg")] {
+            let items = module_items(&file.items, &["exports", ns, pkg, iface]);
             let tr = find_trait(items, "Guest").expect("Guest trait");
             let mut methods = vec![];
             for it in &tr.items {
@@ -471,11 +484,14 @@ fn main() {
             }
             let m = format_ident!("{}_glue", iface);
             let ifid = format_ident!("{}", iface);
+            let (nsid, pkgid) = (format_ident!("{}", ns), format_ident!("{}", pkg));
+            // (an interface with resources has associated types in `Guest`: src/c07.rs names them)
+            let assoc = if iface == "exp4" { quote!(type Widget = crate::c07::MyWidget;) } else { quote!() };
             glue.push(quote! {
                 mod #m {
                     #[allow(unused_imports)]
-                    use crate::c07_bindings::exports::verif::c07::#ifid::*;
-                    impl Guest for crate::c07::G { #(#methods)* }
+                    use crate::c07_bindings::exports::#nsid::#pkgid::#ifid::*;
+                    impl Guest for crate::c07::G { #assoc #(#methods)* }
                 }
             });
         }
